@@ -21,8 +21,15 @@ def run(ctx):
                         modes=("serial", "serial", "serial", "thread") if not ctx.thorough else ("serial", "serial", "thread", "process"),
                         max_cycles_choices=(1, 2, 3, 5), pop_scales=(1, 1, 1.5, 2), multi=True)
     ctx.rule("all exported optimizers × generated tasks (continuous: symmetric, asymmetric, zero-touching, one-sided, tiny 1e-9, huge 1e9, scalar variables; multi-objective; "
-             "discrete / discrete-multi / binary / mixed / permutation for the pairs that run today) × objectives × min/max × cycle budgets 1..5 × population 1×/1.5×/2× × seeds × serial/thread(/process); "
+             "discrete / discrete-multi / binary / mixed / permutation for the pairs that run today) × objectives × min/max × cycle budgets 1..5 × population 1×/1.5×/2× × seeds × serial/thread(/process); an eighth of the continuous tasks are derived (model_copy(update=variables)) from an already used, wider task; "
              "every agent of every generation + best_solution is judged by the Lean membership predicate; a case = one run; non-trivial = the run returned a result with ≥ 2 generations; distinct by job")
+    # tasks derived from an already used task (same kinds and sizes, narrower / shifted bounds): a multi-step history
+    for j in ctx.rng.sample(js, len(js) // 8):
+        if j["kind"] in ("cont", "cont-sym", "cont-zero", "cont-onesided") and len(j["specs"]) == 1:
+            sp = j["specs"][0]
+            wide = {"k": "contMulti", "lbs": [lb - 3 * (ub - lb) for lb, ub in zip(sp["lbs"], sp["ubs"])], "ubs": [ub + 3 * (ub - lb) for lb, ub in zip(sp["lbs"], sp["ubs"])]}
+            j["derive_from"] = [wide]
+            j["kind"] = j["kind"] + "+derived"
     results = pmap(trace.run_traced, js)
     judge(ctx, results, ["C01"])
 
